@@ -31,6 +31,7 @@ namespace {
       std::map<const void*, int> ids;                       // Node address (or raw address) -> id
       std::map<int, impl::Handler*> handlers;
       int counter = 0;
+      int handlers_made = 1;          // (the first handler of a world catches `...`)
 
       int reg(const std::string& c, const ipr::Node* n, const void* raw, bool owner_prescribed = false)
       {
@@ -192,7 +193,9 @@ namespace {
          else if (op == "make_where") { auto w = lex.make_where(region(a.at(0))); out.push_back(reg("Where", w, nullptr)); out.push_back(reg("Region", &w->region, nullptr, false)); }
          else if (op == "new_handler") {
             auto b = as<impl::Block>(a.at(0));
-            auto h = b->new_handler(fresh_name(), lex.int_type());
+            // the shape of a handler does not depend on what it catches: the exception type cycles through int, `...`, *char, bool
+            const ipr::Type* caught[] = { &lex.int_type(), &lex.ellipsis_type(), &lex.get_pointer(lex.char_type()), &lex.bool_type() };
+            auto h = b->new_handler(fresh_name(), *caught[handlers_made++ % 4]);
             const ipr::Handler& ih = *h;
             out.push_back(reg("Handler", h, nullptr));
             out.push_back(reg("EH_parameter", &ih.exception(), nullptr));
